@@ -60,6 +60,11 @@ def gen_source(rng):
         extra.append(rng.choice([f"pg  'page one{ch}page two';", f"pl  (1 'x{ch} y');", f"pn {{ m 'a {ch}b'; }}"]))
         nontrivial = True
     if rng.random() < 0.3:
+        # quoted values made of word characters and signs no delimiter list knows (= + @ % ~ ^ ! ? & | *): written bare
+        extra.append(rng.choice(["mode  'mode=fast';", "flags  ( '-DNDEBUG=1' '-O2' '--jobs=4' );", "thr  '=5';", "tok  'dGVzdA==';", "mail  'a@b.c';",
+                                 "pct  '50%';", "home  '~user';", "pw  'a^b!c?d';", "amp  'x&y|z';", "star  'a*b+c';"]))
+        nontrivial = True
+    if rng.random() < 0.3:
         # quoted values that begin or end with a quote character of the other flavour (what the first read makes of them is
         # the business of C02 / C04; whatever it is, it must be a fixed point of the cycle)
         extra.append(rng.choice(["remark  'he said \"go\"';", "label  '\"Beta\" release';", "hint  \"call it 'final'\";",
